@@ -171,6 +171,10 @@ pub fn check_case(c: &FrameCase, q: &QRCode) -> (Vec<(String, String)>, Option<G
                 out.push(("image-size-not-honoured".into(), format!("requested image size {} but the image is {}", s, g.iw)));
             }
         }
+        if c.gap.is_none() && g.iw > g.fside + TOL {
+            // no gap requested: the default gap is not negative, the image lies inside its frame
+            out.push(("image-larger-than-frame".into(), format!("image side {} exceeds frame side {} (no gap was requested)", g.iw, g.fside)));
+        }
         if let Some(gap) = c.gap {
             let a = g.iw + 2.0 * gap - g.fside; // alignment adjustment
             if a < -TOL || a > 1.0 + TOL {
@@ -284,7 +288,8 @@ pub fn run(ctx: &Ctx) -> Collector {
     let n_def = cases.len();
     let sizes: Vec<Option<f64>> = std::iter::once(None).chain((2..=40).map(|i| Some(i as f64 / 2.0))).collect();
     let gaps = [None, Some(0.0), Some(0.25), Some(0.5), Some(1.0), Some(2.0), Some(3.0)];
-    let poss = [None, Some((10.0, 10.0)), Some((12.5, 7.0)), Some((0.0, 0.0))];
+    // (positions inside the first module, on an edge and on an axis too: a position is in modules, whatever its size)
+    let poss = [None, Some((10.0, 10.0)), Some((12.5, 7.0)), Some((0.0, 0.0)), Some((1.0, 1.0)), Some((0.5, 0.25)), Some((18.5, 0.0)), Some((0.0, 9.0))];
     let vers: Vec<usize> = if ctx.tier.thorough() { vec![1, 2, 3, 6, 7, 14, 20, 27, 39, 40] } else { vec![1, 2, 7, 20, 40] };
     for &v in &vers {
         for frame in 0..3usize {
@@ -378,7 +383,7 @@ pub fn run(ctx: &Ctx) -> Collector {
     });
     col.space(json!({"name": "frame through ImageBuilder", "cases": icases.len(), "what": "6 option sets (default, and explicit size/gap/position with x != y) x 2 frame shapes x versions {1,3}: the frame located in the pixels of ImageBuilder::to_pixmap agrees with the SVG geometry", "exhaustive": true, "wall_s": (t_img.elapsed().as_secs_f64() * 100.0).round() / 100.0}));
     col.space(json!({"name": "one-decimal overrides", "cases": n_grid, "what": "sizes 5.0..10.0 x gaps 0.0..1.0 x positions (p, p+0.5) for p in 6.0..15.0, steps of 0.1 (quick: every third size, every seventh position), versions {1,5}", "exhaustive": true}));
-    col.space(json!({"name": "overrides", "cases": n_grid0 - n_def, "what": format!("sizes {{unset,1,1.5,..,20}} x gaps {{unset,0,.25,.5,1,2,3}} x positions {{unset,(10,10),(12.5,7),(0,0)}} x versions {:?} x margins {{0,3,4}} x 3 frame shapes", vers), "exhaustive": true}));
+    col.space(json!({"name": "overrides", "cases": n_grid0 - n_def, "what": format!("sizes {{unset,1,1.5,..,20}} x gaps {{unset,0,.25,.5,1,2,3}} x positions {{unset,(10,10),(12.5,7),(0,0),(1,1),(0.5,0.25),(18.5,0),(0,9)}} x versions {:?} x margins {{0,3,4}} x 3 frame shapes", vers), "exhaustive": true}));
     col.sample(cases[0].to_json());
     col.sample(cases[n_def - 1].to_json());
     col.sample(cases[cases.len() - 1].to_json());
